@@ -44,6 +44,7 @@ struct Feed {
     bool stuck = false;
     size_t consumed = 0;
     size_t leftover = 0;
+    size_t fed = 0;
     RequestParser::State end_state = RequestParser::State::kInit;
     size_t parse_calls = 0;
 };
@@ -65,6 +66,7 @@ Feed feed(const std::vector<std::string> &segs, bool count_mechanisms) {
     std::string pending;
     for (const std::string &seg : segs) {
         pending += seg;
+        f.fed += seg.size();
         size_t guard = 0;
         while (!pending.empty()) {
             size_t n = pending.size();
@@ -311,7 +313,7 @@ void case_hostile(vh::Rng &r) {
         }
         if (f.overclaim) { vh::viol("parser/consumed-more-than-given", "parse() returned more than data_size"); break; }
         if (f.stuck) { vh::viol("parser/no-progress", "kFinishedAll without consuming a byte, repeatedly"); break; }
-        if (f.consumed + f.leftover != L) { vh::viol("parser/accounting", vh::fmt("consumed %zu + left %zu != %zu", f.consumed, f.leftover, L)); break; }
+        if (f.consumed + f.leftover != f.fed) { vh::viol("parser/accounting", vh::fmt("consumed %zu + left %zu != fed %zu", f.consumed, f.leftover, f.fed)); break; }
         if (f.failed) vh::counter("hostile_rejected");
         else if (!f.got.empty()) vh::counter("hostile_yielded_requests");
         else vh::counter("hostile_waiting_for_more");
